@@ -1,5 +1,9 @@
-\* C09 quick tier: 3 servers x (5 methods x 7 content types x 10 Accept headers x Upgrade?)
-\* x document parts (10 documents x operationName choices x validity classes) x {inline, apq}
+\* C09 thorough tier - exhaustive instance of Http (module MC_Http).
+\*   Servers  S1 .. S6            Accepts  20 lists (AcceptsFull)
+\*   Docs     21 documents (DocsFull: every anonymous / named single operation, every pair of kinds,
+\*            every order of query+mutation+subscription); everything else as in MC_Http.cfg
+\* Measured: 701,520 requests (116,920 per server), 3,625,840 distinct states, depth 9,
+\* 50 s with -workers 4 (without reading the export), ~25 s per server with -workers 1.
 CONSTANTS
   Servers <- ServersFull
   Methods <- MethodsAll
